@@ -48,7 +48,7 @@ theorem char_accepted (ch rest : List UInt8) (h : isUtf8Char ch = true) :
     split at ha
     · simp at ha
     · rename_i hne
-      simp only [Bool.and_eq_true, bne_iff_ne, ne_eq, true_and, Bool.true_and, Decidable.not_not] at hne
+      simp only [bne_iff_ne, ne_eq, Bool.true_and, Decidable.not_not] at hne
       have : c = init := ok_start_finish c hok hne
       simp [this]
 
@@ -73,9 +73,9 @@ theorem byte_checker_eq_spec (bs : List UInt8) :
       split
       · rfl
       · rename_i hne
-        simp only [Bool.and_eq_true, bne_iff_ne, ne_eq, true_and, Bool.true_and, Decidable.not_not] at hne
+        simp only [bne_iff_ne, ne_eq, Bool.true_and, Decidable.not_not] at hne
         exact ok_start_finish c hok hne
-  rw [← hv, ← hs]
+  exact Prod.ext hv hs
 
 /-- The same for `cjet_is_text_valid` (verdict). -/
 theorem text_checker_eq_spec (bs : List UInt8) : (textSeq init bs true).1 = wellFormed bs := by
@@ -132,7 +132,7 @@ example : byteSeq init [0xE2, 0x82] false = (true, ⟨0xE2, 3, 3⟩) := by decid
 theorem split_irrelevant (c : Checker) (bs₁ bs₂ : List UInt8) (k : Bool) :
     (let r₁ := byteSeq c bs₁ false
      if r₁.1 then byteSeq r₁.2 bs₂ k else r₁) = byteSeq c (bs₁ ++ bs₂) k := by
-  simp only [byteSeq_false_eq, byteSeq_eq_finish, runBytes_append]
+  simp only [byteSeq_eq_finish, runBytes_append]
   rcases runBytes c bs₁ with ⟨v, c'⟩
   cases v <;> simp [finish]
 
@@ -182,6 +182,15 @@ theorem word64_path_eq_byte_path (c : Checker) (hc : c.ok = true) (ws : List UIn
   word64Seq_eq_byteSeq c hc ws k
 
 example : (Checker.mk 0xF4 4 2).ok = true := by decide
+
+/-- The hypothesis `c.ok` cannot be dropped: in a struct that no sequence of calls can produce
+    (`next_byte == 1` with a stale `start_byte`) the fast path skips an ASCII word and leaves the
+    struct untouched, while the byte loop normalises it.  The verdict is the same. -/
+theorem word_path_unreachable_state_differs :
+    (Checker.mk 0x41 3 1).ok = false ∧
+    word32Seq ⟨0x41, 3, 1⟩ [0x41414141] false = (true, ⟨0x41, 3, 1⟩) ∧
+    byteSeq ⟨0x41, 3, 1⟩ (bytes32 0x41414141) false = (true, init) := by
+  decide
 
 /-- Hence the word entry points decide the spec on complete texts. -/
 theorem word_paths_eq_spec (ws32 : List UInt32) (ws64 : List UInt64) :
@@ -249,7 +258,8 @@ theorem entry_points_preserve_ok (c : Checker) (hc : c.ok = true) (bs : List UIn
   refine ⟨hb, ?_, ?_, ?_, ?_⟩
   · rw [textSeq]
     have := ok_runBytes c bs hc
-    rcases runBytes c bs with ⟨v, c'⟩
+    rcases h : runBytes c bs with ⟨v, c'⟩
+    rw [h] at this
     cases v
     · exact this
     · simp only; split <;> exact this
@@ -260,22 +270,27 @@ theorem entry_points_preserve_ok (c : Checker) (hc : c.ok = true) (bs : List UIn
       intro r hr; rw [autoEpilogue]; split
       · exact ok_init
       · exact hr
-    unfold autoAligned
-    apply e
-    simp only [autoSwitch]
-    split
-    · have h1 := ok_byteSeq c (bs.take (8 - addr % 8)) false hc
-      simp only [autoWords64]
-      apply ok_byteSeq
-      rw [word64_path_eq_byte_path _ h1]
-      exact ok_byteSeq _ _ _ h1
-    · split
-      · have h1 := ok_byteSeq c (bs.take (4 - addr % 4)) false hc
-        simp only [autoWords32]
+    have sw : ∀ bw, (autoSwitch bw addr c bs k).2.ok = true := by
+      intro bw
+      unfold autoSwitch
+      by_cases h8 : (bw == 8) = true
+      · rw [if_pos h8]
+        have h1 := ok_byteSeq c (bs.take (8 - addr % 8)) false hc
+        simp only [autoWords64]
         apply ok_byteSeq
-        rw [word_path_eq_byte_path _ h1]
+        rw [word64_path_eq_byte_path _ h1]
         exact ok_byteSeq _ _ _ h1
-      · exact hb
+      · rw [if_neg h8]
+        by_cases h4 : (bw == 4) = true
+        · rw [if_pos h4]
+          have h1 := ok_byteSeq c (bs.take (4 - addr % 4)) false hc
+          simp only [autoWords32]
+          apply ok_byteSeq
+          rw [word_path_eq_byte_path _ h1]
+          exact ok_byteSeq _ _ _ h1
+        · rw [if_neg h4]; exact hb
+    unfold autoAligned
+    exact e _ (sw _)
 
 example : (Checker.mk 0xED 3 2).ok = true := by decide
 
